@@ -19,7 +19,7 @@ package configmigrate
 //vx:stub gopkg.in/yaml.v3.NewEncoder vxC13NewEncoder
 //vx:note the document is an arbitrary untyped tree (lazy): the presence of a key is decided at its first lookup, nil-ness and dynamic type of a value at the first nil test / type assertion (so keys present / absent / null / of unexpected type all arise); bounds: at most 2 (quick) / 3 (thorough) of the keys a step looks at are present per map, strings 0..2 bytes, lists 0..2 elements, nesting depth 3
 //vx:note Step entry: each of the 29 steps is run alone through the real step table on an arbitrary document (so every chain of steps is panic-free); Migrate entry: the real Migrate with the last 1..2 steps
-//vx:note Chain entry: every window of 2..4 (quick) / 2..5 (thorough) consecutive steps run in one go through the real table: a chain must not fail with a type error on a value that an earlier step of the same run stored (the one-run vs several-runs clause, as far as it is visible without a YAML round trip)
+//vx:note Chain entry: every window of 2..4 (quick) / 2..6 (thorough) consecutive steps (at most one inspected key present per map) run in one go through the real table: a chain must not fail with a type error on a value that an earlier step of the same run stored (the one-run vs several-runs clause, as far as it is visible without a YAML round trip)
 //vx:note outside: YAML text <-> value mapping (yaml.v3 is reflection driven), hence one-run vs split-run equality and acceptance by the current loader are not claimed
 
 import (
@@ -146,16 +146,16 @@ func vxC13Chain() {
 	n := int(LastSchemaVersion)
 	maxLen := 4
 	if vx.Thorough() {
-		maxLen = 5
+		maxLen = 6
 	}
 	from := vx.Choice("from", n-1)
 	length := 2 + vx.Choice("len", maxLen-1)
 	if from+length > n {
 		length = n - from
 	}
-	// chains multiply the per-step cases: at most 1 (quick) / 2 (thorough) of
-	// the inspected keys present per map
-	doc := vx.LazyObject(vxC13MaxKeys() - 1)
+	// chains multiply the per-step cases: at most 1 of the inspected keys
+	// present per map
+	doc := vx.LazyObject(1)
 	m := &Migrator{workingDir: "/w", dataDir: "/w/data"}
 	err := m.upgradeConfigSchema(uint(from), uint(from+length), doc)
 	if err == nil {
